@@ -24,6 +24,9 @@ func runC10Gaps2(c *eng.Ctx) {
 	c10gSealAll(c)
 	c10gKeyVerification(c)
 	c10gRawProtectsKeyring(c)
+	c10gSealInternal(c)
+	c10gRotationEnvelope(c)
+	c10gUpgradeKeyPublished(c)
 }
 
 // c10gRecvKeyring: f is a method with receiver *Keyring.
@@ -605,4 +608,115 @@ func c10gRawProtectsKeyring(c *eng.Ctx) {
 	}
 	c.Clause("R4", "C10.4")
 	c.NilResultOnEdges(f, "a protected prefix matched", hit, 0, "storage accessor")
+}
+
+// C10.2 (Core): once the core is marked sealed (the CompareAndSwap succeeded)
+// every return of sealInternalWithOptions lies behind SealManager.sealAll —
+// a node that reports sealed holds no keyring. Two error legs return earlier;
+// they are tabled exceptions keyed by the callee whose error they test: on the
+// pinned tree neither callee can return an error (triage/c10_seal_error_before_sealall).
+func c10gSealInternal(c *eng.Ctx) {
+	f := c.Fn("vault.(*Core).sealInternalWithOptions")
+	if f == nil {
+		return
+	}
+	c.Clause("R4", "C10.2")
+	marked := eng.CondEdges(f, `^\(\*sync/atomic\.Bool\)\.CompareAndSwap\(\)$`, true)
+	seals := eng.Calls(f, `vault\.\(\*SealManager\)\.sealAll$`)
+	if !c.Floor(f, "core marked sealed (CompareAndSwap succeeded)", len(marked), 1) || !c.Floor(f, "SealManager.sealAll", len(seals), 1) {
+		return
+	}
+	excepted := []struct{ pat, sym, why string }{
+		{`vault\.\(\*Core\)\.preSeal$`, "vault.(*Core).preSeal", "error leg `return errors.New(\"internal error\")` before sealAll: every error source of preSeal (teardownAudits, stopExpiration, teardownCredentials, teardownPolicyStore, stopRollback, unloadMounts, teardownLoginMFA, teardownNamespaceStore) returns nil on the pinned tree; not demonstrable without injecting a fault"},
+		{`raft\.\(\*RaftBackend\)\.TeardownCluster$`, "raft.(*RaftBackend).TeardownCluster", "error leg before sealAll: TeardownCluster returns raft's shutdown future error, which is always nil (hashicorp/raft shutdownFuture.Error)"},
+	}
+	var blocked []eng.Edge
+	for _, e := range excepted {
+		for _, cl := range eng.Calls(f, e.pat) {
+			fe := eng.CallFailEdges(cl)
+			if len(fe) == 0 {
+				continue
+			}
+			blocked = append(blocked, fe...)
+			c.Exception(e.sym, e.why)
+			c.OK(f, "sealed core seals every barrier [excepted leg: "+e.sym+" failed]", cl.Pos(), e.why)
+		}
+	}
+	isRet := func(in ssa.Instruction) bool { _, ok := in.(*ssa.Return); return ok }
+	site := "on{core marked sealed} cleanup{SealManager.sealAll}"
+	if h := eng.Reach(eng.Query{Fn: f, StartEdges: marked, Blocked: blocked, Barriers: instrsOf(seals), Target: isRet}); h != nil {
+		c.Violation(f, site, h.Instr.Pos(), "a return is reachable after the core was marked sealed without sealing the barriers: the node reports sealed while its barriers keep their keyrings and serve", h.Witness)
+	} else {
+		c.OK(f, site, seals[0].Pos(), "every return after the mark (other than the two tabled error legs) is preceded by sealAll")
+	}
+}
+
+// C10.6 (siblings, envelope): like performBarrierRekey, the namespace-aware
+// rotations issue their dependent durable writes with no atomic envelope —
+// further instances of finding F6.
+func c10gRotationEnvelope(c *eng.Ctx) {
+	for _, t := range []struct{ fn, seq string }{
+		{"vault.(*SealManager).performRootRotation", "stored keys, keyring, root key, legacy delete, shamir KEK, seal config"},
+		{"vault.(*SealManager).RotateBarrierRootKey", "stored keys, keyring, root key, legacy delete"},
+	} {
+		f := c.Fn(t.fn)
+		if f == nil {
+			continue
+		}
+		c.Clause("R13", "C10.6")
+		envelope := ""
+		if len(eng.Calls(f, `BeginTx$`)) > 0 {
+			envelope = "storage transaction"
+		}
+		if len(eng.Calls(f, `(?i)(rekey|rotat).*(marker|journal|intent)|(?i)(marker|journal|intent).*(rekey|rotat)`)) > 0 {
+			envelope = "intent marker"
+		}
+		if envelope == "" {
+			c.Violation(f, "durable-write-sequence", f.Pos(), "F6 sibling: the rotation is a sequence of dependent durable steps ("+t.seq+") issued one after another with no transaction and no recovery marker: a crash or storage failure after the stored keys were replaced and before the keyring record was re-encrypted leaves a store whose seal yields a root key that cannot open the keyring", nil)
+		} else {
+			c.OK(f, "durable-write-sequence", f.Pos(), "atomic envelope present: "+envelope)
+		}
+	}
+}
+
+// C10.5 (writer): the key CreateUpgrade publishes under upgrade/<term-1> is
+// the key of its own term parameter, taken from the live keyring, and what is
+// encrypted is that key's serialization.
+func c10gUpgradeKeyPublished(c *eng.Ctx) {
+	f := c.Fn("barrier.(*AESGCMBarrier).CreateUpgrade")
+	if f == nil {
+		return
+	}
+	c.Clause("R5", "C10.5")
+	ser := eng.Calls(f, `barrier\.\(\*Key\)\.Serialize$`)
+	enc := eng.Calls(f, `barrier\.\(\*AESGCMBarrier\)\.encryptTracked$`)
+	if !c.Floor(f, "Key.Serialize", len(ser), 1) || !c.Floor(f, "encryptTracked", len(enc), 1) {
+		return
+	}
+	for _, s := range ser {
+		site := "key published on the upgrade path = TermKey(term) of the live keyring"
+		k := s.Common().Args[0]
+		bad := ""
+		for _, o := range eng.Origins(k) {
+			cl, ok := o.Val.(*ssa.Call)
+			switch {
+			case !ok || eng.CalleeName(&cl.Call) != "barrier.(*Keyring).TermKey" || len(cl.Call.Args) != 2:
+				bad = o.Kind + ":" + o.Desc
+			case eng.Expr(cl.Call.Args[0]) != "b.keyring":
+				bad = "TermKey of " + eng.ExprDeep(cl.Call.Args[0])
+			default:
+				if p, isP := cl.Call.Args[1].(*ssa.Parameter); !isP || eng.VarName(p) != "term" {
+					bad = "TermKey(" + eng.ExprDeep(cl.Call.Args[1]) + ")"
+				}
+			}
+		}
+		if bad == "" {
+			c.OK(f, site, s.Pos(), eng.ExprDeep(k))
+		} else {
+			c.Violation(f, site, s.Pos(), "the key serialized for upgrade/<term-1> is "+bad+": standbys that follow the path install a key that is not the one records of that term were written with", nil)
+		}
+	}
+	for _, e := range enc {
+		c.Prov(f, "plaintext of the upgrade entry", e, e.Common().Args[4], `^call:barrier\.\(\*Key\)\.Serialize#0$`)
+	}
 }
